@@ -806,6 +806,50 @@ def w10(rep):
                            "so a library that ar(1) lists correctly cannot be read" if v == 0 else "every padded field ends in a blank"))
 
 
+def w11(rep):
+    """The identifier of a compilation unit names its C symbols (INIT__0_<id>, C0_<id>...).  A saved unit carries its id in the
+    LIB_Id section; compPhaseLoadFoam restores it with emitSetFileIdName so that C generated from the .ao uses the names the
+    .as -> C route and the unit's clients use.  emitGetFileIdName must therefore return a set id as it is: the -Wprefix option
+    applies to ids derived from the source file name only."""
+    from .peval import peval
+    f = common.extract("emit.c", trees=["emitGetFileIdName"], cfg=["emitGetFileIdName"])
+    fn = f.func("emitGetFileIdName")
+    cfg = common.CFG(fn)
+    env = {"emitFileIdName": 1, "emitFileIdPrefix": 1}
+
+    def edge_ok(b, s_):
+        ce = cfg.cond_edges(b)
+        if ce is None:
+            return True
+        v = peval(ce[0], env)
+        if v is None:
+            return True
+        return s_ == (ce[1] if v else ce[2])
+
+    def prefixes(n):
+        return n["k"] == "CallExpr" and n.get("callee") in ("strConcat", "strlConcat", "strPrintf") and \
+            any(y["k"] == "DeclRefExpr" and y["n"] == "emitFileIdPrefix" for y in walk(n))
+    if not cfg.events(prefixes):
+        raise AnalysisBroken("emitGetFileIdName: the application of the -Wprefix text was not found")
+    if not any(y["k"] == "DeclRefExpr" and y["n"] == "emitFileIdName" for y in walk(fn["body"])):
+        raise AnalysisBroken("emitGetFileIdName no longer looks at emitFileIdName")
+    esc = cfg.path_avoiding(cfg.entry, prefixes, lambda n: False, edge_ok=edge_ok)
+    # conditional expressions are not split into CFG edges by value: also evaluate `x ? a : b` selections of the set id
+    tern = [y for y in walk(fn["body"]) if y["k"] == "ConditionalOperator" and
+            any(z["k"] == "DeclRefExpr" and z["n"] == "emitFileIdName" for z in walk(y["c"][0]))]
+    where = "emit.c:%d (emitGetFileIdName)" % fn["l"]
+    if esc is None and not tern:
+        rep.ok("W11", "unit-id:set-id-returned-as-is")
+    elif esc is None:
+        raise AnalysisBroken("emitGetFileIdName selects the id with ?: but no prefix application is reachable; re-read")
+    else:
+        rep.violation("W11", "unit-id:set-id-returned-as-is", where,
+                      "with an id already set (restored from a saved .ao, or given with -Wname) and a -Wprefix in force, "
+                      "emitGetFileIdName reaches the concatenation with the prefix: C generated from the .ao names its symbols "
+                      "INIT__0_<prefix><prefix><unit> while the source route and the clients use INIT__0_<prefix><unit>, so the "
+                      "library/client split no longer links", detail={"cfg_path": esc[:10]})
+
+
 def w5(rep, f_foam, alphabet):
     n = 0
     for name, fn in sorted(f_foam.funcs.items()):
@@ -1191,6 +1235,7 @@ def run(tier, only=None):
     w8(rep, f_foam)
     w9(rep)
     w10(rep)
+    w11(rep)
     f_sefo = common.extract("sefo.c", all_trees=True)
     w6(rep, f_sefo, widths)
     rep.assumptions += ["W7: for Lex/RElt/RRElt/EElt/IRElt/TRElt nodes the letter i of argf marks exactly the fields written with the "
